@@ -238,6 +238,7 @@ def run(prog: Program) -> Results:
             res.add("R-C01-6", fnd.key, fnd.where, fnd.message)
     presence_tests(prog, res, "R-C01-7", renderer_functions(prog, cg))
     marker_positions(prog, res, "R-C01-8")
+    no_text_rewriting(prog, res, "R-C01-9", renderer_functions(prog, cg) + [prog.func("NixSourceCode.rebuild")])
     res.assumptions = ["glue between adjacent tokens (separator presence), line-comment/newline adjacency and integer/let/trailing-"
                        "comma normalisations are value-level facts about concatenated strings and are not decided"]
     return res
@@ -410,3 +411,39 @@ def marker_positions(prog: Program, res: Results, rid: str) -> None:
                         f"{f.key}: `{norm(n)[:70]}` looks for the leading-comma marker at a fixed index, but "
                         f"{sorted({w[0].key for w in writers if w[3] == 'anywhere'})} append it after an empty_line marker or own-line "
                         f"comments: for `{{ a\\n\\n, b }}:` the previous formal gets its own comma as well and the output has two commas")
+
+
+# ------------------------------------------------------------------------------------------------ R-C01-9
+REWRITERS = {"sub", "subn", "replace", "translate", "expandtabs", "casefold", "lower", "upper", "title", "swapcase", "capitalize", "zfill",
+             "center", "ljust", "rjust", "encode"}
+
+
+def no_text_rewriting(prog: Program, res: Results, rid: str, functions) -> None:
+    from sa.deadrender import render_names
+    r = res.rule(rid, "rendered text is assembled, never rewritten: in the renderer closure (and NixSourceCode.rebuild) no regex "
+                 "substitution, str.replace/translate or case/width transformation is applied to a string that holds rendered "
+                 "expressions (string literals, indented strings and comments are inside it verbatim); only end trimming "
+                 "(strip/lstrip/rstrip, split at the first newline) occurs", floor=30)
+    for f in functions:
+        names = render_names(f)
+        # generator/join results of rebuild() calls
+        for n in ast.walk(f.node):
+            if isinstance(n, ast.Assign) and isinstance(n.targets[0], ast.Name) and any(
+                    isinstance(c, ast.Call) and isinstance(c.func, ast.Attribute) and c.func.attr == "rebuild" for c in ast.walk(n.value)):
+                names.add(n.targets[0].id)
+        r.instances += 1
+        bad = []
+        for c in walk_no_nested(f.node):
+            if not (isinstance(c, ast.Call) and isinstance(c.func, ast.Attribute) and c.func.attr in REWRITERS):
+                continue
+            recv_is_text = isinstance(c.func.value, ast.Name) and c.func.value.id in names
+            arg_is_text = any(isinstance(a, ast.Name) and a.id in names for a in c.args) and c.func.attr in ("sub", "subn")
+            direct = any(isinstance(x, ast.Call) and isinstance(x.func, ast.Attribute) and x.func.attr == "rebuild"
+                         for a in ([c.func.value] + list(c.args)) for x in ast.walk(a))
+            if recv_is_text or arg_is_text or direct:
+                bad.append(c)
+        r.ob(not bad, None if not bad else {"site": f.key, "rewrites": [norm(c)[:60] for c in bad]})
+        for c in bad:
+            res.add(rid, (f.key, "rendered text rewritten", c.func.attr), f.loc(c),
+                    f"{f.key}: `{norm(c)[:80]}` rewrites text that already contains rendered expressions: the pattern also matches "
+                    f"inside string literals, indented strings and comments, whose contents (tokens) change in a round trip")
